@@ -25,6 +25,6 @@ if [ $clean -eq 0 ] && [ $mut -ne 0 ] && [ $suite -eq 0 ]; then
   echo CONFIRMED
   cd /; git -C /repo worktree remove --force "$wt"; rm -f /tmp/seed/$name.*.log
 else
-  tail -5 /tmp/seed/$name.clean.log /tmp/seed/$name.suite.log
+  tail -n 5 /tmp/seed/$name.clean.log /tmp/seed/$name.suite.log
   exit 1
 fi
